@@ -75,7 +75,7 @@ def draw_case(rng, variant=None, dim=None, zero_error=False, allow_latlon=True):
     # (simple kriging only: with unbiasedness rows of ones / drift values the system matrix mixes the variable's unit with pure
     # numbers, and its conditioning - hence the attainable accuracy - legitimately depends on the unit)
     if c["norm"] == "Normalizer" and variant == "Simple" and rng.random() < 0.5:
-        us = float(rng.choice([1e-10, 1e-5, 1e6]))
+        us = float(rng.choice([1e-10, 1e-10, 1e-12, 1e-5, 1e6]))
         c["unit_scale"] = us
         md["var"] = float(md["var"] * us)
         md["nugget"] = float(md["nugget"] * us)
